@@ -218,13 +218,14 @@ fn gen_ty(rng: &mut Rng, depth: u32) -> Ty {
     }
     match rng.below(10) {
         0 | 1 | 2 | 3 => {
-            let n = rng.below(4);
-            Ty::T((0..n.max(1)).map(|_| gen_ty(rng, depth - 1)).collect())
+            // 1 to 6 components (a runtime may treat small arities specially)
+            let n = [1usize, 1, 2, 2, 3, 3, 4, 5, 6][rng.below(9)];
+            Ty::T((0..n).map(|_| gen_ty(rng, depth - 1)).collect())
         }
         4 => {
             // numeric tuples (for arithmetic)
             let leaf = if rng.chance(1, 2) { Ty::I } else { Ty::F };
-            let n = 1 + rng.below(3);
+            let n = 1 + rng.below(6);
             Ty::T((0..n).map(|_| if depth > 1 && rng.chance(1, 4) { Ty::T(vec![leaf.clone(), leaf.clone()]) } else { leaf.clone() }).collect())
         }
         5 | 6 => Ty::L(Box::new(gen_ty(rng, depth - 1))),
@@ -627,7 +628,7 @@ impl Check for C19 {
         }
         Finish {
             level: "exploration",
-            rule: "a random type to nesting depth 1-3 (tuples of int/float/str/bool/tuples, numeric tuples, lists, three blobs incl. fields holding false / lists / nested blobs, an enum with and without payload, Maybe) gets a pool of 6 values (a value, an equal copy, a last-leaf neighbour, a prefix-equal list, random ones); the compiled program prints every pair under == != (and < <= > >= for numbers/strings/tuples, + - * / for numeric tuples and strings, tuple / number), plus equalities between the same enum value from different producers (source literal, variable, library result); each printed result is compared with the structural definition, then reflexivity, symmetry, complement, a<=b <=> a<b or a==b, a<b <=> b>a, trichotomy and transitivity are checked on the printed answers. Non-trivial: every judged program; distinct by source hash.".into(),
+            rule: "a random type to nesting depth 1-3 (tuples of 1-6 int/float/str/bool/tuple components, numeric tuples of 1-6 components, lists, three blobs incl. fields holding false / lists / nested blobs, an enum with and without payload, Maybe) gets a pool of 6 values (a value, an equal copy, a last-leaf neighbour, a prefix-equal list, random ones); the compiled program prints every pair under == != (and < <= > >= for numbers/strings/tuples, + - * / for numeric tuples and strings, tuple / number), plus equalities between the same enum value from different producers (source literal, variable, library result); each printed result is compared with the structural definition, then reflexivity, symmetry, complement, a<=b <=> a<b or a==b, a<b <=> b>a, trichotomy and transitivity are checked on the printed answers. Non-trivial: every judged program; distinct by source hash.".into(),
             extra: J::obj().with("unobservable_clause", J::s("unary minus on tuples is rejected by this tree's typechecker (Constraint::Neg admits int/float only): counted as not exercisable, not a violation")),
             assumptions: vec!["luamon models Lua 5.3 metamethod dispatch".into(), "overflowing / non-finite results are not generated (skipped by the model)".into()],
             exhaustive: false,
